@@ -8,37 +8,51 @@ from .mir import Unsupported
 
 
 def client_mir(name, actions):
-    """Build MIR text for a client thread. actions: list of
-       ('alloc_bytes', size_arg_local)   -> allocate, own, fill, check
-       ('free_last',)                     -> check, release, dealloc the last allocation
-       ('free_given', off_local, size_local, slot) -> release slot, dealloc(off,size) of an initially owned range
-       ('keep',)                          -> keep the last allocation for ever
-    Arguments: _1 = &Arena, _2.._5 = u32 parameters, _6 = u8 pattern."""
+    """MIR text of a synthetic client thread (it runs on the same interpreter as the crate's MIR). Actions:
+       ('alloc_bytes', k)            m := alloc_bytes_in(_k); on success own(m), fill(m) - the handle's slot is the next free one
+       ('free_slot', j) / ('free_last',)   check(m_j); release(j); dealloc(m_j.memory_offset, m_j.memory_size)   (what Drop does)
+       ('forget_slot', j)            release(j) without dealloc (a detached handle / hand-over to another thread)
+       ('check_slot', j)             check(m_j)
+       ('free_given', ko, ks, j)     release(j); dealloc(_ko, _ks)  - a range the thread holds from the start (slot j, j < number of given slots)
+       ('discard',)                  discard_freelist_in()
+    Arguments: _1 = &Arena, _2.._5 = u32 parameters, _6 = u8 pattern. Slots: given ranges first, then allocations in order."""
     L = []
     L.append("fn %s(_1: &sync::Arena, _2: u32, _3: u32, _4: u32, _5: u32, _6: u8) -> () {" % name)
     L.append("    let mut _0: ();")
     bbs = []
     nl = [10]
-    own_slot = [0]
+    ngiven = max([a[3] + 1 for a in actions if a[0] == "free_given"] + [0])
+    next_slot = [ngiven]
+    metas = {}
+    last = [None]
 
     def newl():
         nl[0] += 1
         return nl[0]
 
-    last_meta = [None]
-    last_slot = [None]
     cur = []
 
     def close(term):
         bbs.append((list(cur), term))
         cur.clear()
 
+    def free_slot(j):
+        u1, u2, u3, o, s_ = [newl() for _ in range(5)]
+        b = len(bbs)
+        meta = metas[j]
+        # the slot may be empty when the allocation failed: guarded by the allocation's own control flow (jump to END)
+        close("_%d = client::check(copy _%d, copy _6) -> [return: bb%d, unwind continue];" % (u1, meta, b + 1))
+        close("_%d = client::release(const %d_u8) -> [return: bb%d, unwind continue];" % (u2, j, b + 2))
+        cur.append("_%d = copy (_%d.1: u32);" % (o, meta))
+        cur.append("_%d = copy (_%d.2: u32);" % (s_, meta))
+        close("_%d = <sync::Arena as allocator::Allocator>::dealloc(copy _1, copy _%d, copy _%d) -> [return: bb%d, unwind continue];" % (u3, o, s_, b + 3))
+
     for a in actions:
         if a[0] == "alloc_bytes":
-            r, d1, opt, d2, meta, u1, u2, u3 = [newl() for _ in range(8)]
+            r, d1, opt, d2, meta, u1, u2 = [newl() for _ in range(7)]
             b = len(bbs)
-            slot = own_slot[0]
-            own_slot[0] += 1
+            slot = next_slot[0]
+            next_slot[0] += 1
             close("_%d = sync::Arena::alloc_bytes_in(copy _1, copy _%d) -> [return: bb%d, unwind continue];" % (r, a[1], b + 1))
             cur.append("_%d = discriminant(_%d);" % (d1, r))
             close("switchInt(move _%d) -> [0: bb%d, otherwise: bbEND];" % (d1, b + 2))
@@ -46,27 +60,32 @@ def client_mir(name, actions):
             cur.append("_%d = discriminant(_%d);" % (d2, opt))
             close("switchInt(move _%d) -> [1: bb%d, otherwise: bbEND];" % (d2, b + 3))
             cur.append("_%d = copy ((_%d as Some).0: Meta);" % (meta, opt))
-            close("_%d = client::own(copy _%d, const %d_u8) -> [return: bb%d, unwind continue];" % (u1, meta, slot, b + 4))
-            close("_%d = client::fill(copy _%d, copy _6) -> [return: bb%d, unwind continue];" % (u2, meta, b + 5))
-            last_meta[0], last_slot[0] = meta, slot
+            if len(a) > 2 and a[2] == "handover":
+                # the block is handed to another thread (which holds it as a given range): not tracked as ours
+                close("_%d = client::fill(copy _%d, copy _6) -> [return: bb%d, unwind continue];" % (u2, meta, b + 4))
+            else:
+                close("_%d = client::own(copy _%d, const %d_u8) -> [return: bb%d, unwind continue];" % (u1, meta, slot, b + 4))
+                close("_%d = client::fill(copy _%d, copy _6) -> [return: bb%d, unwind continue];" % (u2, meta, b + 5))
+            metas[slot] = meta
+            last[0] = slot
         elif a[0] == "free_last":
-            u1, u2, u3, o, s = [newl() for _ in range(5)]
+            free_slot(last[0])
+        elif a[0] == "free_slot":
+            free_slot(ngiven + a[1])
+        elif a[0] == "forget_slot":
+            u2 = newl()
             b = len(bbs)
-            meta = last_meta[0]
-            close("_%d = client::check(copy _%d, copy _6) -> [return: bb%d, unwind continue];" % (u1, meta, b + 1))
-            close("_%d = client::release(const %d_u8) -> [return: bb%d, unwind continue];" % (u2, last_slot[0], b + 2))
-            cur.append("_%d = copy (_%d.1: u32);" % (o, meta))
-            cur.append("_%d = copy (_%d.2: u32);" % (s, meta))
-            close("_%d = <sync::Arena as allocator::Allocator>::dealloc(copy _1, copy _%d, copy _%d) -> [return: bb%d, unwind continue];" % (u3, o, s, b + 3))
+            close("_%d = client::release(const %d_u8) -> [return: bb%d, unwind continue];" % (u2, ngiven + a[1], b + 1))
+        elif a[0] == "check_slot" or a[0] == "check_last":
+            u1 = newl()
+            b = len(bbs)
+            j = last[0] if a[0] == "check_last" else ngiven + a[1]
+            close("_%d = client::check(copy _%d, copy _6) -> [return: bb%d, unwind continue];" % (u1, metas[j], b + 1))
         elif a[0] == "free_given":
             u2, u3 = newl(), newl()
             b = len(bbs)
             close("_%d = client::release(const %d_u8) -> [return: bb%d, unwind continue];" % (u2, a[3], b + 1))
             close("_%d = <sync::Arena as allocator::Allocator>::dealloc(copy _1, copy _%d, copy _%d) -> [return: bb%d, unwind continue];" % (u3, a[1], a[2], b + 2))
-        elif a[0] == "check_last":
-            u1 = newl()
-            b = len(bbs)
-            close("_%d = client::check(copy _%d, copy _6) -> [return: bb%d, unwind continue];" % (u1, last_meta[0], b + 1))
         elif a[0] == "discard":
             u1 = newl()
             b = len(bbs)
@@ -79,12 +98,16 @@ def client_mir(name, actions):
     end = len(bbs) - 1
     for i, (stmts, term) in enumerate(bbs):
         L.append("    bb%d: {" % i)
-        for s in stmts:
-            L.append("        " + s)
+        for s_ in stmts:
+            L.append("        " + s_)
         L.append("        " + term.replace("bbEND", "bb%d" % end))
         L.append("    }")
     L.append("}")
     return "\n".join(L) + "\n"
+
+
+def nslots(actions):
+    return max([a[3] + 1 for a in actions if a[0] == "free_given"] + [0]) + sum(1 for a in actions if a[0] == "alloc_bytes")
 
 
 class World:
@@ -170,18 +193,25 @@ class World:
         return t
 
     # ------------------------------------------------------------ initial states
-    def init_fresh(self, M):
+    def init_fresh(self, M, min_seg=20):
+        """the image Memory::alloc / map_mut(create) writes (unified layout): zeroes, the 8 identification bytes, the header"""
         c = []
         W = M.W[0]
-        for i in range(M.NW - 1):
-            c.append(W[i] == self._fresh_word(i))
-        return c
-
-    def _fresh_word(self, i):
         hw = self.hdr // 8
-        if i == hw:
-            return bv((0xFFFFFFFF << 32) | 0xFFFFFFFF, 64)
-        return None
+        fl_idx = self.prog.enums["Freelist"].index(self.freelist)
+        for i in range(M.NW - 1):
+            if i == hw:
+                v = 0xFFFFFFFFFFFFFFFF
+            elif i == hw + 1:
+                v = (min_seg << 32) | self.dofs
+            else:
+                v = None
+            if v is not None:
+                c.append(W[i] == bv(v, 64))
+            elif 8 * i >= self.dofs:
+                c.append(W[i] == bv(0, 64))
+            # the words holding reserved bytes / identification bytes / header padding are never read by the encoded code
+        return c
 
     def init_inv(self, M, maxn, order):
         """INV(W[0]): arbitrary cursor, <= maxn well-formed segments, arbitrary data bytes.
